@@ -616,6 +616,10 @@ def autoforwards_function(func, args, kwargs):
 
 
 def _autoforwards_function(func, args, kwargs):
+    try:
+        declared = vars(func).get('__signature__')
+    except TypeError:
+        declared = None
     with cleanup_functools_wrapper(func):
         try:
             sig = _signatures.signature(func)
@@ -623,6 +627,13 @@ def _autoforwards_function(func, args, kwargs):
             # eg. a functools.lru_cache wrapper: without its __wrapped__
             # it is a builtin callable without signature
             raise UnknownForwards
+    if (
+            isinstance(declared, _signatures.UpgradedSignature)
+            and [(p.name, p.kind) for p in declared.parameters.values()]
+                == [(p.name, p.kind) for p in sig.parameters.values()]):
+        # the function's own parameters with more information about them,
+        # as modifiers.annotate leaves it
+        sig = declared
     if not any_params_star(sig):
         raise UnknownForwards
     func_ast = _util.get_ast(func)
